@@ -16,3 +16,26 @@ package knownhosts
 //@ loop 2 invariant spec.globstar(row(pat), off(pat)+1, len(pat)-1, row(str), off(str), len(str), 0) ==
 //@ |   spec.globstar(row(pat), off(pat)+1, len(pat)-1, row(str), off(str), len(str), j)
 //@ canary ensures result == (len(pat) == len(str))
+
+// A host pattern matches an address when the host glob matches and the
+// ports are equal (ports are compared as strings).
+//@ pred pmatch(h, pt, a) = spec.glob(row(h), 0, len(h), row(a.host), 0, len(a.host)) && pt == a.port
+
+//@ func (*hostPattern).match
+//@ props C42
+//@ pure
+//@ ensures result == pmatch(p.addr.host, p.addr.port, a)
+//@ canary ensures result == (p.addr.port == a.port)
+
+// A pattern list matches when some non-negated pattern matches and no
+// negated pattern matches (OpenSSH match_pattern_list / match_hostname).
+//@ pred pm(ps, i, a) = pmatch(ps[i].addr.host, ps[i].addr.port, a)
+
+//@ func (hostPatterns).match
+//@ props C42
+//@ pure
+//@ ensures result == (exists(i, 0, len(ps), pm(ps, i, a) && !ps[i].negate) && forall(i, 0, len(ps), !(pm(ps, i, a) && ps[i].negate)))
+//@ loop 1 invariant -1 <= rangeindex && rangeindex < len(ps)
+//@ loop 1 invariant matched == exists(i, 0, rangeindex+1, pm(ps, i, a) && !ps[i].negate)
+//@ loop 1 invariant forall(i, 0, rangeindex+1, !(pm(ps, i, a) && ps[i].negate))
+//@ canary ensures result == exists(i, 0, len(ps), pm(ps, i, a))
